@@ -29,6 +29,8 @@ _spec.loader.exec_module(dg)
 FUEL = 24
 # defect classes, by priority of the flag raised while the Lean interpreters run the layout
 CLASS = [
+    ("frameInitSkipped", "defer:frame-setup-in-place-does-not-dominate-earlier-defers"),
+    ("droppedDefer", "defer:rangefunc-defers-dropped-in-generic-instance"),
     ("wrongNode", "defer:unexecuted-defer-pops-wrong-node"),
     ("unexecAlways", "defer:unexecuted-always-defer-runs"),
     ("drainOrder", "defer:nodeless-defer-between-loop-defers"),
@@ -147,6 +149,10 @@ class BackendCrash(Exception):
     pass
 
 
+class NoDom(Exception):
+    """layouts with a function whose in-place frame set-up does not dominate its other defer statements (kinds harness: N)"""
+
+
 def _is_backend_crash(text):
     """llgo died inside LLVM 14's code generator (cgo call), not in its own Go code"""
     return "signal arrived during cgo execution" in text and "_Cfunc_LLVM" in text
@@ -173,12 +179,16 @@ def isolate_backend_crash(ctx, cases, opt):
     return bad
 
 
-def build_batch(ctx, tag, cases, kinds_bin, want_ref=True):
+def build_batch(ctx, tag, cases, kinds_bin, want_ref=True, opts=("-O0", "-O2"), allow_nodom=False):
     """render, classify with the real cl/blocks, compile with llgo -O0/-O2 and the reference toolchain.
     Layouts on which LLVM 14's code generator crashes are dropped from `cases` (in place) and listed in the evidence."""
-    for attempt in range(3):
+    for attempt in range(4):
         try:
-            return _build_batch(ctx, tag, cases, kinds_bin, want_ref)
+            return _build_batch(ctx, tag, cases, kinds_bin, want_ref, opts, allow_nodom)
+        except NoDom as e:
+            for c in e.args[0]:
+                cases.remove(c)
+                ctx.nodom_cases.append({"name": c["name"], "fns": c["fns"]})
         except BackendCrash as e:
             opt = e.args[0]
             bad = isolate_backend_crash(ctx, cases, opt)
@@ -191,7 +201,7 @@ def build_batch(ctx, tag, cases, kinds_bin, want_ref=True):
     raise HarnessBuildError("llgo build keeps crashing in the LLVM backend")
 
 
-def _build_batch(ctx, tag, cases, kinds_bin, want_ref=True):
+def _build_batch(ctx, tag, cases, kinds_bin, want_ref=True, opts=("-O0", "-O2"), allow_nodom=False):
     d = os.path.join(ctx.scratch, "prog-" + tag)
     shutil.rmtree(d, ignore_errors=True)
     files = dg.render_program(cases)
@@ -200,11 +210,22 @@ def _build_batch(ctx, tag, cases, kinds_bin, want_ref=True):
     if p.returncode != 0:
         raise HarnessBuildError("kinds harness failed on the generated program:\n" + (p.stdout + p.stderr)[-3000:])
     facts = dg.parse_facts(p.stdout)
+    if facts["N"] and not allow_nodom:
+        # such functions use the frame pointer before it exists: llgo emits IR in which a definition does not dominate its
+        # use; LLVM 14 dies on it at -O2. They are compiled apart (class defer:frame-setup-in-place-does-not-dominate).
+        bad = [c for c in cases if any(l in facts["N"] for l in c["_fline"].values())]
+        if bad:
+            raise NoDom(bad)
     bins = {}
-    for opt in ("-O0", "-O2"):
+    for opt in opts:
         t = time.time()
         out = os.path.join(d, "prog" + opt)
         b = e2e.llgo_build(ctx, d, out, opt)
+        if b.returncode != 0 and allow_nodom and opt != "-O0":
+            ctx.log("llgo %s cannot compile the layouts whose frame set-up does not dominate (%s): judged at -O0 only" %
+                    (opt, "LLVM backend crash" if _is_backend_crash(b.stdout + b.stderr) else "build error"))
+            ctx.coverage["nodom_O2_build"] = "fails"
+            continue
         if b.returncode != 0 and _is_backend_crash(b.stdout + b.stderr):
             raise BackendCrash(opt)
         if b.returncode != 0 or not os.path.exists(out):
@@ -240,7 +261,7 @@ def run_all(bins, n, workers=8):
 
 def run(ctx, args):
     quick = ctx.tier == "quick"
-    n_gen = int(os.environ.get("VERIF_C04_N", "140" if quick else "1500"))
+    n_gen = int(os.environ.get("VERIF_C04_N", "120" if quick else "1500"))
     rng = ctx.rng
     st = lean_check(ctx, ["LlgoVerif.Props.C04"], ["LlgoVerif/Props/C04.lean"],
                     extra_files=["LlgoVerif/Model/Defer.lean", "LlgoVerif/Spec/DeferSem.lean", "LlgoVerif/Lemmas/Defer.lean"],
@@ -266,6 +287,11 @@ def run(ctx, args):
     # conditional explicit panic / fault / return between defer statements (branch taken and not taken), and owner
     # functions of range-over-func defers (>= 1 range-over-func loop that defers, mixed with own and ordinary loop defers)
     enum += dg.enum_panic_branch()
+    # defers in blocks that leave a loop (break / labelled break / continue), else-branch defers inside loops followed by
+    # post-loop defers, instances of generic functions with every defer shape, and the limit of the conditional-defer bit set
+    lx, el, gn = dg.enum_loop_exit(), dg.enum_else_loop(), dg.enum_generic(2)
+    enum += (rng.sample(lx, 40) + rng.sample(el, 16) + rng.sample(gn, 30)) if quick else (lx + el + gn)
+    enum += dg.enum_cond64(sizes=(64,)) + dg.enum_cond64(sizes=(62, 63), patterns=("all", "last"), faults=(0,)) if quick else dg.enum_cond64()
     rf3 = dg.enum_rangefunc(3)
     enum += dg.enum_rangefunc(2) + (rng.sample(rf3, 20) if quick else rf3)
     allc = corpus + enum + gen
@@ -286,11 +312,14 @@ def run(ctx, args):
     samples = []
     evaluations = 0
     spec_bugs, corr_bugs = [], []
-    for bi, cases in enumerate(batches):
-        d, facts, bins = build_batch(ctx, "b%d" % bi, cases, kinds_bin)
+    ctx.nodom_cases = []
+
+    def process(bi, cases, allow_nodom=False):
+        nonlocal tls_fix, evaluations
+        d, facts, bins = build_batch(ctx, "b%s" % bi, cases, kinds_bin, allow_nodom=allow_nodom)
         t0 = time.time()
         outs = run_all(bins, len(cases))
-        ctx.log("batch %d: %d layouts x %d binaries run in %.1fs" % (bi, len(cases), len(bins), time.time() - t0))
+        ctx.log("batch %s: %d layouts x %d binaries run in %.1fs" % (bi, len(cases), len(bins), time.time() - t0))
         if tls_fix is None:
             # the stale-frame witness behaves as Go demands  <=>  the rethrow block resets the thread's defer head
             # (fixes/C04-1.diff applied); the model is run in the matching configuration
@@ -300,12 +329,13 @@ def run(ctx, args):
         progs = []
         lines = []
         for ci, case in enumerate(cases):
-            lay, index, entry, problems, mism = dg.layouts(case, facts)
+            lay, index, info, problems, mism = dg.layouts(case, facts)
             if problems:
                 ctx.log("layout problems in", case["name"], problems[:3])
                 stats["layout_problems"] = stats.get("layout_problems", 0) + 1
-            prog = dg.encode(case, lay, index, entry)
-            progs.append((prog, lay, mism))
+            prog = dg.encode(case, lay, index, info)
+            inverted = dg.history_not_wf(case, lay, index)
+            progs.append((prog, lay, mism, inverted))
             if mism:
                 # cl/blocks classified a block against its definition (checked with go/ssa's own dominator tree / CFG)
                 stats["kind_mismatches"] = stats.get("kind_mismatches", 0) + len(mism)
@@ -320,11 +350,11 @@ def run(ctx, args):
         if len(ans) != len(lines):
             raise RuntimeError("modeld_c04 died: %d/%d answers\n%s" % (len(ans), len(lines), err[-2000:]))
         for ci, case in enumerate(cases):
-            prog, lay, mism = progs[ci]
+            prog, lay, mism, inverted = progs[ci]
             m0, m2, sp = parse_answer(ans[3 * ci]), parse_answer(ans[3 * ci + 1]), parse_answer(ans[3 * ci + 2])
-            real = {"-O0": outs["-O0"][ci], "-O2": outs["-O2"][ci]}
+            real = {o: outs[o][ci] for o in ("-O0", "-O2") if o in outs}
             ref = outs["ref"][ci]
-            evaluations += 3
+            evaluations += len(real) + 1
             stats["layouts"] += 1
             nd = 0
             for f, ss in lay.items():
@@ -351,6 +381,8 @@ def run(ctx, args):
                 spec_bugs.append({"case": case["name"], "layout": dg.dumps(case), "spec": sp, "go": ref})
                 continue
             for opt, m in (("-O0", m0), ("-O2", m2)):
+                if opt not in real:
+                    continue
                 r = real[opt]
                 flags = m[1] + sp[1]
                 for fl in flags:
@@ -369,10 +401,17 @@ def run(ctx, args):
                 # layout is the one the definition gives (an `always` defer skipped by a panicking call or fault in
                 # straight-line code - not a defer that cl/blocks wrongly made `always`)
                 if model_ok and not mism:
-                    for fl, k in CLASS:
-                        if fl in flags:
-                            key = k
-                            break
+                    if inverted and "frameInitSkipped" not in flags and "droppedDefer" not in flags:
+                        # root cause: cl/blocks ordered a block that leaves a loop before the loop's blocks, the replay
+                        # order of the statements is not their execution order (whatever the symptom: nodes left behind,
+                        # calls out of order, a neighbour's node popped)
+                        if any(fl in flags for fl in ("nodesLeft", "drainOrder", "wrongNode", "unexecAlways")):
+                            key = "defer:loop-exit-block-defer-ordered-before-loop-defers"
+                    if key is None:
+                        for fl, k in CLASS:
+                            if fl in flags:
+                                key = k
+                                break
                 if key is None:
                     stats["unclassifiable"] += 1
                     key = "defer:layout:" + hashlib.sha1((opt + prog).encode()).hexdigest()[:16]
@@ -382,6 +421,12 @@ def run(ctx, args):
                            {"case": case["name"], "opt": opt, "layout": json.loads(dg.dumps(case)), "encoded": prog,
                             "llgo": r, "go": ref, "spec": sp, "model": m, "model_reproduces_llgo": model_ok,
                             "how": "render with harness/c04/defergen.py render_program([layout]); llgo build %s; echo 0 | ./prog" % opt})
+
+    for bi, cases in enumerate(batches):
+        process(bi, cases)
+    if ctx.nodom_cases:
+        stats["frame_setup_not_dominating_layouts"] = len(ctx.nodom_cases)
+        process("nodom", ctx.nodom_cases, allow_nodom=True)
 
     if spec_bugs:
         ctx.log("SPEC BUG: Lean spec disagrees with the reference toolchain on %d layouts; first: %s" % (len(spec_bugs), json.dumps(spec_bugs[0])[:1500]))
